@@ -1,6 +1,7 @@
 #!/bin/bash
 # tools/proc_seed.sh <id> : confirm a finished sub-agent seed, collect it, and run the property's check against it
 ID=$1
+[ -s /tmp/seed/$ID/_seed/meta.json ] || { echo "$ID not finished (no meta.json)"; exit 1; }
 /verif/tools/confirm_seed.sh /tmp/seed/$ID > /tmp/seed/$ID.confirm 2>&1
 if ! grep -q "^CONFIRMED" /tmp/seed/$ID.confirm; then echo "$ID NOT CONFIRMED: $(tail -n 3 /tmp/seed/$ID.confirm | tr '\n' ' ')"; exit 1; fi
 /verif/tools/collect_seed.sh $ID >/dev/null || { echo "$ID collect failed"; exit 1; }
